@@ -202,4 +202,139 @@ theorem partition_read_eq_filter (ts : Nat → Nat → Int) (cs : List ChunkMeta
   rw [scanAll_eq]
   exact journal_filter_eq ts r cs 0 hall
 
+/-! ## a reader that starts inside a window (paging: a cursor re-created at the position the previous page ended with) -/
+
+/-- the positions of a chunk's window at or behind `pIdx` -/
+theorem windowFrom_eq (st : ChkSt) (pIdx : Nat) :
+    (windowPositions st).filter (fun p => decide (pIdx ≤ p)) =
+      List.range' (max st.minPos pIdx) (min st.count (st.maxPos + 1) - max st.minPos pIdx) := by
+  unfold windowPositions
+  rw [List.filter_filter, ← filter_range_interval (max st.minPos pIdx) st.maxPos st.count]
+  apply List.filter_congr
+  intro p _
+  by_cases h1 : pIdx ≤ p <;> by_cases h2 : st.minPos ≤ p <;> by_cases h3 : p ≤ st.maxPos <;> simp [h1, h2, h3] <;> omega
+
+/-- entering a chunk at ANY index `pIdx` (a cursor re-created at the position a page ended with): either the chunk is
+refused and its window holds no position at or behind `pIdx`, or it is opened and the scan delivers exactly those -/
+theorem checkAdvance_mid (st : ChkSt) (pIdx : Nat) :
+    ((checkAdvance st pIdx).2 = false ∧ (windowPositions st).filter (fun p => decide (pIdx ≤ p)) = []) ∨
+    ((checkAdvance st pIdx).2 = true ∧
+      scanFrom st st.count (checkAdvance st pIdx).1 = (windowPositions st).filter (fun p => decide (pIdx ≤ p))) := by
+  have hp : (if pIdx < st.minPos then st.minPos else pIdx) = max st.minPos pIdx := by
+    by_cases h : pIdx < st.minPos
+    · simp [h]; omega
+    · simp [h]; omega
+  rw [windowFrom_eq]
+  by_cases hbad : max st.minPos pIdx ≥ st.count ∨ max st.minPos pIdx > st.maxPos
+  · left
+    constructor
+    · simp only [checkAdvance, hp]
+      rcases hbad with h | h
+      · simp [h]
+      · simp [h]
+    · have : min st.count (st.maxPos + 1) - max st.minPos pIdx = 0 := by omega
+      simp [this]
+  · right
+    have h1 : ¬ max st.minPos pIdx ≥ st.count := by omega
+    have h2 : ¬ max st.minPos pIdx > st.maxPos := by omega
+    have hca : checkAdvance st pIdx = (max st.minPos pIdx, true) := by
+      simp only [checkAdvance, hp]
+      simp [h1, h2]
+    rw [hca]
+    refine ⟨rfl, ?_⟩
+    exact scanFrom_eq st st.count (max st.minPos pIdx) (by omega) (by omega) (by omega)
+
+/-- **a reader that starts inside a chunk**: from `(chunk k, index pIdx)` the scan delivers the positions of that chunk's
+window at or behind `pIdx`, then the windows of the chunks that follow -/
+theorem scan_mid_eq (st : ChkSt) (rest : List ChkSt) (pIdx fuel k : Nat) (hf : rest.length + 2 ≤ fuel) :
+    scan fuel (st :: rest) pIdx k =
+      ((windowPositions st).filter (fun p => decide (pIdx ≤ p))).map (fun p => (k, p)) ++ journalPositions rest (k + 1) := by
+  cases fuel with
+  | zero => omega
+  | succ f =>
+    rcases checkAdvance_mid st pIdx with ⟨hb, hw⟩ | ⟨hb, hw⟩
+    · have hg : getPosForward (st :: rest) pIdx k = getPosForward rest 0 (k + 1) := by
+        simp only [getPosForward]
+        cases hca : checkAdvance st pIdx with
+        | mk np ok =>
+          rw [hca] at hb
+          simp at hb
+          subst hb
+          rfl
+      have hs : scan (f + 1) (st :: rest) pIdx k = scan (f + 1) rest 0 (k + 1) := by
+        simp only [scan, hg]
+      rw [hs, scan_eq rest (f + 1) (k + 1) (by omega), hw]
+      simp
+    · have hg : getPosForward (st :: rest) pIdx k = some (k, (checkAdvance st pIdx).1, st, rest) := by
+        simp only [getPosForward]
+        cases hca : checkAdvance st pIdx with
+        | mk np ok =>
+          rw [hca] at hb
+          simp at hb
+          subst hb
+          rfl
+      simp only [scan, hg]
+      rw [hw, scan_eq rest f (k + 1) (by omega)]
+
+/-- the positions of a journal at or behind `(k, pIdx)` (first chunk of the list = chunk `k`) -/
+def fullFrom : List ChunkMeta → Nat → Nat → List (Nat × Nat)
+  | [], _, _ => []
+  | c :: rest, pIdx, k => ((List.range c.n).filter (fun p => decide (pIdx ≤ p))).map (fun p => (k, p)) ++ fullPositions rest (k + 1)
+
+/-- **resume_read_eq_filter** — paging from a position inside a window: a ranged read that is resumed at `(k, pIdx)` (a
+new cursor at the position the previous page ended with: `getPosForward` enters the chunk at `pIdx`, corrected to the
+window) delivers exactly the in-range records at or behind that position — provided the windows are complete. -/
+theorem resume_read_eq_filter (ts : Nat → Nat → Int) (c : ChunkMeta) (rest : List ChunkMeta) (r : TmRange) (pIdx k : Nat)
+    (hall : AllComplete ts (c :: rest) k) :
+    (scan (rest.length + 2) ((c :: rest).map (statusOf r)) pIdx k).filter
+        (fun kp => RangedIter.fitInRange r.minTs r.maxTs (ts kp.1 kp.2)) =
+      (fullFrom (c :: rest) pIdx k).filter (fun kp => decide (inRange r (ts kp.1 kp.2))) := by
+  rw [List.map_cons, scan_mid_eq _ _ pIdx _ k (by simp)]
+  simp only [fullFrom, List.filter_append]
+  rw [journal_filter_eq ts r rest (k + 1) hall.2]
+  congr 1
+  rw [List.filter_map, List.filter_map]
+  congr 1
+  have := chunk_eq_of_complete (tsOf := ts k) c r hall.1
+  have hL : ∀ (P : Nat → Bool) (L : List Nat) (Q : Nat × Nat → Bool),
+      List.filter (Q ∘ fun p => (k, p)) (List.filter P L) = List.filter P (List.filter (fun p => Q (k, p)) L) := by
+    intro P L Q
+    rw [List.filter_filter, List.filter_filter]
+    apply List.filter_congr
+    intro p _
+    simp [Bool.and_comm]
+  rw [hL, hL, this]
+
+/-! ## backward entry -/
+
+/-- **backward reading enters a chunk at or behind every in-range record**: `getPosBackward` enters a chunk that is not the
+wanted one at index MaxUint32, `checkPosOrReduce` pulls it down to `min maxPos (count − 1)`; when the window contains a
+position `q` of the chunk (what `chunk_window_sound` gives for every in-range `q`), the chunk is accepted and the entry
+position is `≥ q` and inside the window — nothing in range lies behind the point where the backward reader starts, and
+`Next` (which leaves the chunk below `minPos`) cannot leave before `q`. For the wanted chunk itself (`pIdx` = the position
+a page ended with) the entry is `min pIdx (min maxPos (count − 1))`. -/
+theorem checkReduce_covers (st : ChkSt) (pIdx q : Nat) (h1 : st.minPos ≤ q) (h2 : q ≤ st.maxPos) (h3 : q < st.count)
+    (hc : st.count ≤ 4294967296) :
+    checkReduce st pIdx = (min pIdx (min st.maxPos (st.count - 1)), decide (st.minPos ≤ min pIdx (min st.maxPos (st.count - 1)))) ∧
+      (q ≤ pIdx → (checkReduce st pIdx).2 = true ∧ q ≤ (checkReduce st pIdx).1 ∧ (checkReduce st pIdx).1 ≤ st.maxPos) := by
+  have hw : (st.count + 4294967296 - 1) % 4294967296 = st.count - 1 := by omega
+  have e : checkReduce st pIdx = (min pIdx (min st.maxPos (st.count - 1)), decide (st.minPos ≤ min pIdx (min st.maxPos (st.count - 1)))) := by
+    unfold checkReduce
+    simp only [hw]
+    by_cases a : pIdx > st.maxPos
+    · by_cases b : st.maxPos ≥ st.count
+      · have : min pIdx (min st.maxPos (st.count - 1)) = st.count - 1 := by omega
+        simp [a, b, this]; omega
+      · have : min pIdx (min st.maxPos (st.count - 1)) = st.maxPos := by omega
+        simp [a, b, this]; omega
+    · by_cases b : pIdx ≥ st.count
+      · have : min pIdx (min st.maxPos (st.count - 1)) = st.count - 1 := by omega
+        simp [a, b, this]; omega
+      · have : min pIdx (min st.maxPos (st.count - 1)) = pIdx := by omega
+        simp [a, b, this]; omega
+  refine ⟨e, ?_⟩
+  intro hq
+  rw [e]
+  refine ⟨by simp; omega, by simp; omega, by simp; omega⟩
+
 end Logrange.PartScan
